@@ -25,6 +25,10 @@ func init() {
 					jobs = append(jobs, Job{Pkg: "filterlist", Func: "verifC11String", Args: []int64{int64(n), 1}})
 				}
 			}
+			// a list that starts with a UTF-8 byte order mark
+			for n := 1; n <= 3; n++ {
+				jobs = append(jobs, Job{Pkg: "filterlist", Func: "verifC11BOM", Args: []int64{int64(n)}})
+			}
 			for k := 1; k <= 3; k++ {
 				jobs = append(jobs, Job{Pkg: "filterlist", Func: "verifC11Storage", Args: []int64{int64(k)}})
 			}
@@ -105,7 +109,7 @@ func init() {
 		MustReach: []string{"c11.packing", "c11.scanned", "c11.storage", "c11.duplicate", "c11.file", "c11.filescan", "c11.long", "c11.multiscan", "c11.fileseq"},
 		ContractStubs: "os.File is the engine's file model (content, offset, closed flag; a read may be short); a counterexample that needs a short read cannot be forced natively",
 		Bounds: map[string]string{
-			"quick":    "index packing for all int32 pairs (full width); in-memory list content of 0..4 symbolic bytes over {a, #, space, LF, CR} (lines are classified by a table of the real NewRule results for every line over {a,#,space}, computed natively each run, so counterexamples replay) scanned through the real RuleScanner / bufio.Reader / strings.Reader code and retrieved through the real RetrieveRule, IgnoreCosmetic on and off; CRLF variant; file-backed list vs in-memory list on the same symbolic content of 0..3 bytes with a read buffer of 1..3 bytes and short reads (RetrieveRule at every offset; scanned sequence); two retrievals in a row at any two offsets of 4..6 bytes over {a,LF} through a reused buffer of 3..4 bytes; the scanner's line splitting on a line of buffer-size-5..buffer-size+1 filler bytes followed by four symbolic bytes over {a,LF} (lines longer than, equal to and shorter than the 4 KiB read buffer; also as a '!' comment); the storage scanner over 2..4 in-memory lists of 1..2 symbolic bytes each (lists that yield nothing in any position); storage of 1..3 lists with arbitrary int32 ids (negative, zero, extreme) and an arbitrary offset below 2^31",
+			"quick":    "index packing for all int32 pairs (full width); in-memory list content of 0..4 symbolic bytes over {a, #, space, LF, CR} (lines are classified by a table of the real NewRule results for every line over {a,#,space}, computed natively each run, so counterexamples replay) scanned through the real RuleScanner / bufio.Reader / strings.Reader code and retrieved through the real RetrieveRule, IgnoreCosmetic on and off; CRLF variant; the same for a list that starts with a UTF-8 byte order mark (three concrete bytes, then 1..3 symbolic bytes over {a,LF}); file-backed list vs in-memory list on the same symbolic content of 0..3 bytes with a read buffer of 1..3 bytes and short reads (RetrieveRule at every offset; scanned sequence); two retrievals in a row at any two offsets of 4..6 bytes over {a,LF} through a reused buffer of 3..4 bytes; the scanner's line splitting on a line of buffer-size-5..buffer-size+1 filler bytes followed by four symbolic bytes over {a,LF} (lines longer than, equal to and shorter than the 4 KiB read buffer; also as a '!' comment); the storage scanner over 2..4 in-memory lists of 1..2 symbolic bytes each (lists that yield nothing in any position); storage of 1..3 lists with arbitrary int32 ids (negative, zero, extreme) and an arbitrary offset below 2^31",
 			"thorough": "content up to 5 bytes (file-backed up to 4)",
 		},
 		Outside:     []string{"rules.NewRule beyond its results on lines over {a,#,space} (exact table) - other lines would be an uninterpreted classification", "the real os.File and operating system (file model: content, offset, closed flag, reads that deliver one byte or everything)", "contents longer than the bound other than the long-line shape (a filler, four symbolic bytes)", "multi-byte UTF-8 and NUL bytes"},
